@@ -156,6 +156,14 @@ CHECKS.update({
             'printed formulas. Well-formed queries only, so TypeError is a violation too.', TECH_HIST, '7/C19'),
 })
 
+ADDENDUM = (' Beyond the core scope the quick tier also enumerates the input dimensions that four waves of '
+            'independently seeded changes attacked (DESIGN.md section 17): n-ary and/or, negation-rich and '
+            'deeply nested formulas, 4-7 state structures, unusual state / node / atom types and names, '
+            'aliasing of caller-owned objects, duplicates, and query-edit-query call histories.')
+for _k in list(CHECKS):
+    _t = CHECKS[_k]
+    CHECKS[_k] = (_t[0] + ADDENDUM, _t[1], _t[2], _t[3])
+
 NOT_YET = {}
 
 
